@@ -190,6 +190,36 @@ def handleC (j : Json) : Json :=
       ("perm", toJson ((List.finRange k).map fun jj => (perm jj).val)),
       ("transform", toJson (cmatToBits tf)), ("inverse", toJson (cmatToBits (rotInverse F tf))),
       ("uses_inverse", Gen.rotatorSingleUsesInverse (getInt j "power"))]
+  | "crot" =>
+    -- CPCCARotator: fit (rotated vectors, scores, norms, squared covariance, signs, order) and transform of both fields
+    let n := getNat j "n"; let p := getNat j "p"; let q := getNat j "q"; let p' := getNat j "pw"; let q' := getNat j "qw"
+    let k := getNat j "k"; let m := getNat j "m"
+    let A1 := cmatOfBits p p' (getStrArr j "A1"); let A2 := cmatOfBits q q' (getStrArr j "A2")
+    let B1 := cmatOfBits p' p (getStrArr j "B1"); let B2 := cmatOfBits q' q (getStrArr j "B2")
+    let Q1 := cmatOfBits p' k (getStrArr j "Q1"); let Q2 := cmatOfBits q' k (getStrArr j "Q2")
+    let S1 := cmatOfBits n k (getStrArr j "S1"); let S2 := cmatOfBits n k (getStrArr j "S2")
+    let sA := (getStrArr j "s").map bitsToFloat
+    let s : Fin k → Float := fun i => sA[i.val]!
+    let R := cmatOfBits k k (getStrArr j "R"); let RinvT := cmatOfBits k k (getStrArr j "RinvT")
+    let RL : Mat (p + q) k CF := crotLoadings A1 A2 Q1 Q2 s R
+    let sgn : Fin k → Float := fun jj =>
+      if getBool j "realdata" then
+        let (mx, mn) := colMaxMin (Mat.ofFn fun i c => (RL.get i c).re) jj
+        Gen.signRuleXarrayF mx mn
+      else csignOfCol RL jj
+    let n1 : Fin k → Float := crotNorms (B1.mul (topRows RL)); let n2 : Fin k → Float := crotNorms (B2.mul (bottomRows RL))
+    let sq : Fin k → Float := fun jj => (n1 jj * n2 jj) * (n1 jj * n2 jj)
+    let idx : List (Fin k) := (List.finRange k).mergeSort (fun a b => sq a ≥ sq b)
+    let perm : Fin k → Fin k := fun jj => idx.getD jj.val jj
+    let F : CRotFit n p' q' k Float CF := crotFit A1 A2 B1 B2 Q1 Q2 s S1 S2 R RinvT sgn perm
+    let X := cmatOfBits m p' (getStrArr j "X"); let Y := cmatOfBits m q' (getStrArr j "Y")
+    Json.mkObj [("status", "ok"), ("comps1", toJson (cmatToBits F.comps1)), ("comps2", toJson (cmatToBits F.comps2)),
+      ("scores1", toJson (cmatToBits F.scores1)), ("scores2", toJson (cmatToBits F.scores2)),
+      ("norm1", toJson (vecToBits F.norm1)), ("norm2", toJson (vecToBits F.norm2)), ("sqcov", toJson (vecToBits F.sqcov)),
+      ("sgn", toJson (vecToBits F.sgn)), ("perm", toJson ((List.finRange k).map fun jj => (perm jj).val)),
+      ("tf1", toJson (cmatToBits (crotTransform F.norm1 F.sgn Q1 s RinvT perm X false))),
+      ("tf2", toJson (cmatToBits (crotTransform F.norm2 F.sgn Q2 s RinvT perm Y false))),
+      ("tf1n", toJson (cmatToBits (crotTransform F.norm1 F.sgn Q1 s RinvT perm X true)))]
   | "hilbert" =>
     -- _hilbert_transform_with_padding: real series y (n×p), polyfit line (c0, c1), decay; oracle analytic signal H of the padded series
     let n := getNat j "n"; let p := getNat j "p"
